@@ -317,7 +317,7 @@ def generate(tier, rng):
 
         p, _h = base("zero")
         p.update(sx=shift(p["nx"]), sy=shift(p["ny"]), im=rng.randint(0, p["nx"] - 1),
-                 jm=rng.randint(0, p["ny"] - 1), wrap=rng.random() < 0.5)
+                 jm=rng.randint(0, p["ny"] - 1), wrap=True)
         yield "tower-roll", p
 
         p, h = base(rng.choice(["none", "comm", "incomm"]))
